@@ -118,4 +118,39 @@ mod verif_replay_namematch {
             assert_eq!(seen, 2);
         }
     }
+
+    /// C19 (bounded-exhaustive): '*' matches every name wherever it stands in the event attribute: all lists of one to
+    /// three descriptors over {a, b.c, a.*, *}; a list without '*' never becomes a wildcard
+    #[test]
+    fn verif_replay_namematch_wildcard_position() {
+        let alphabet = ["a", "b.c", "a.*", "*"];
+        let mut lists: Vec<Vec<&str>> = Vec::new();
+        for x in alphabet {
+            lists.push(vec![x]);
+            for y in alphabet {
+                lists.push(vec![x, y]);
+                for z in alphabet {
+                    lists.push(vec![x, y, z]);
+                }
+            }
+        }
+        for l in lists {
+            let attr = l.join(" ");
+            let doc = format!(
+                r###"<scxml xmlns="http://www.w3.org/2005/07/scxml" initial="s0" version="1.0" datamodel="null">
+ <state id="s0"><transition event="{}" target="s1"/></state>
+ <final id="s1"/>
+</scxml>"###,
+                attr
+            );
+            let fsm = crate::scxml_reader::parse_from_xml(doc).unwrap();
+            let t = fsm.transitions.values().find(|t| !t.events.is_empty() || t.wildcard).expect("the transition");
+            let has_star = l.contains(&"*");
+            assert_eq!(t.wildcard, has_star, "event=\"{}\": wildcard flag", attr);
+            for n in ["zzz", "q.r", "done.state.s0", "ab"] {
+                assert_eq!(t.nameMatch(n), has_star, "event=\"{}\" and name {:?}", attr, n);
+            }
+            assert!(t.nameMatch("a.x") && t.nameMatch("a") || !l.iter().any(|d| *d == "a" || *d == "a.*" || *d == "*"), "event=\"{}\": 'a' descriptors", attr);
+        }
+    }
 }
